@@ -469,6 +469,22 @@ func execute(r *core.Run, c *Case) {
 		fail("signer-object:"+d[0].Sig, d[0].What)
 		return
 	}
+	// the returned bytes belong to the caller: a later signing (any object, same
+	// process) must not change them
+	keep := append([]byte{}, raw...)
+	other, _ := signature.NewEnvelope(c.MT)
+	req2 := &signature.SignRequest{Payload: signature.Payload{ContentType: "text/plain", Content: []byte(`{"later":"request ` + strings.Repeat("x", len(c.Payload)%97) + `"}`)},
+		Signer: signer, SigningTime: st.Add(time.Hour), SigningAgent: "later/agent", SigningScheme: signature.SigningScheme(c.Scheme)}
+	if remote != nil {
+		req2.Signer = sims.NewRemote(ch)
+	}
+	if _, err := other.Sign(req2); err == nil {
+		if !bytes.Equal(keep, raw) {
+			fail("returned-bytes-changed-by-later-sign", "the byte slice returned by Sign was modified by a later Sign call in the same process")
+			return
+		}
+		r.Count("returned-bytes-stable", 1)
+	}
 	r.Count("round-trips", 1)
 	r.Count("round-trips-"+mtName(c.MT), 1)
 }
@@ -498,7 +514,7 @@ func run(r *core.Run) int {
 	for i := range cases {
 		cases[i] = genCase(rng)
 	}
-	core.Parallel(n, func(i int) {
+	r.Parallel(n, func(i int) {
 		c := &cases[i]
 		execute(r, c)
 		if nontrivial(c) {
